@@ -39,7 +39,7 @@ def classes(prog, r):
     return out
 
 
-CHECK = ProfileCheck(PROFILE, ["c08"], nontrivial, classes)
+CHECK = ProfileCheck(PROFILE, ["c08", "c06"], nontrivial, classes, directed=__import__("vp.flo.gen", fromlist=["x"]).guard_scenario, directed_share=2)
 RULE = ("Hypothesis-generated guard-heavy programs (let guards, guarded aux first frames, shared original auxes, conditions flipping); "
         "invariants on the recorded history: guards evaluated true before each entry, aux ownership, refused attempts leave no trace; + "
         "reference differential. non-trivial = some frame's guard is evaluated false and the same frame is entered later; distinct = distinct program AST")
